@@ -145,6 +145,7 @@ fn finish(ctx: &Ctx, prop: &props::Prop, seed: i64) -> i32 {
     let groups = ctx.violations.lock().unwrap().clone();
     let mut known: BTreeMap<String, (Finding, u64, Value)> = BTreeMap::new();
     let mut exit = 0;
+    let mut unreproduced = 0;
     let mut unlisted_groups: Vec<(u64, Violation, String)> = vec![];
     fs::create_dir_all(format!("{}/replays", verif_dir())).ok();
     for (key, (count, cases)) in &groups {
@@ -183,10 +184,10 @@ fn finish(ctx: &Ctx, prop: &props::Prop, seed: i64) -> i32 {
         let flaky = supported && hits < tries;
         if supported && hits == 0 {
             eprintln!(
-                "MACHINERY ERROR: violation in family {} did not reproduce on replay: {} case={}",
-                v.family, v.fail.msg, v.case
+                "NOTE: a violation in family {} did not reproduce in {} replays (depends on values the harness does not control): {} case={}",
+                v.family, tries, v.fail.msg, v.case
             );
-            exit = 2;
+            unreproduced += 1;
             continue;
         }
         let body = json!({
@@ -233,6 +234,11 @@ fn finish(ctx: &Ctx, prop: &props::Prop, seed: i64) -> i32 {
     }
     if !unlisted_groups.is_empty() && exit == 0 {
         exit = 1;
+    }
+    if unlisted_groups.is_empty() && unreproduced > 0 && exit == 0 {
+        // nothing confirmed, but something failed once and never again: not a verdict
+        eprintln!("MACHINERY ERROR: {} violation group(s) could not be reproduced on replay and no other violation was confirmed", unreproduced);
+        exit = 2;
     }
     write_evidence(ctx, prop, seed, unlisted_groups.iter().map(|x| x.0).sum::<u64>(), &known);
     let fams = ctx.families.lock().unwrap();
